@@ -215,10 +215,19 @@ func (wt *waitTable) disposeWakeSignal(ws *wakeSignal) {
 // and releases a semaphore to unblock the waiting client (if
 // still waiting)
 func (wt *waitTable) unblock(name string, elements int) {
+	wt.unblockExcept(name, elements, nil)
+}
+
+// same as unblock, but never wakes the signal of the client that is doing the push itself
+// (a blocked move from a list onto the same list)
+func (wt *waitTable) unblockExcept(name string, elements int, self *wakeSignal) {
 	list, exists := wt.table[name]
 	if exists {
 		for i := 0; i < elements; i++ {
 			ref := list.queueHead
+			for ref != nil && ref.signal == self {
+				ref = ref.queueNext
+			}
 			if ref == nil {
 				break // less blocked clients than pushes
 			}
